@@ -308,9 +308,8 @@ func (v *visitor) IndexNode(node *ast.IndexNode) reflect.Type {
 func (v *visitor) SliceNode(node *ast.SliceNode) reflect.Type {
 	t := v.visit(node.Node)
 
-	_, isIndex := indexType(t)
-
-	if isIndex || isString(t) {
+	// Maps are indexable but cannot be sliced.
+	if isArray(t) || isString(t) {
 		if node.From != nil {
 			from := v.visit(node.From)
 			if !isInteger(from) {
